@@ -36,14 +36,14 @@ class Converge(DExplore):
                 out.append(("internal failure", "%s: %s %s: %s" % (s.name, e[0], e[1], e[2])))
         for l in w.logged:
             out.append(("error logged", l))
-        ra, rb = w.sides[0].m._my_role, w.sides[1].m._my_role
+        ra, rb = getattr(w.sides[0].m, "_my_role", None), getattr(w.sides[1].m, "_my_role", None)
         if ra is not None and rb is not None and not ({ra, rb} == {LEADER, FOLLOWER}):
             out.append(("roles not complementary", "%r / %r" % (ra, rb)))
         for i in (0, 1):
             sel = w.selected(i)
             if len(sel) > 1:
                 out.append(("more than one connection in use at a time", "%s uses links %r" % (w.sides[i].name, [p.link for p, _ in sel])))
-            if w.sides[i].m._my_role is FOLLOWER:
+            if getattr(w.sides[i].m, "_my_role", None) is FOLLOWER:
                 for (pipe, p) in sel:
                     if pipe.link not in sim.leader_selected_links:
                         out.append(("follower uses a connection the leader has not confirmed", "link %d" % pipe.link))
@@ -122,9 +122,27 @@ class Roles(Job):
         return None
 
 
+# ---- full stack: PLEASE/HINTS/RECONNECT/RECONNECTING travel as encrypted dilate-N phases through the real mailbox path (Boss re-orders them by
+# sequence number); the mailbox connection may drop and return and a reordering server may deliver them out of order
+from harness import fullstack as FS  # noqa: E402
+
+FS_CONFIGS = {
+    "fs-plain-reorder": dict(app=False, reorder=True, stoppable=False),
+    "fs-attempts-in-flight-dilate-late": dict(app=False, lazy_tcp=True, dilate_when="late", stoppable=False),
+}
+
+
+class FConverge(FS.FExplore):
+    configs = FS_CONFIGS
+
+    def violations(self, sim, when):
+        return Converge.violations(self, sim, when) + FS.app_message_violations(sim, when)
+
+
 def jobs(tier):
     from harness.phase_dispatch import PhaseDispatch
-    return [Roles(), PhaseDispatch()] + make_jobs(Converge, tier, 2, 3) + make_drandom_jobs(Converge, tier)
+    return [Roles(), PhaseDispatch()] + make_jobs(Converge, tier, 2, 3) + make_drandom_jobs(Converge, tier) + \
+        FS.make_jobs(FConverge, tier, 2, 3) + FS.make_random_jobs(FConverge, tier, per_cfg=32)
 
 
 ASSUMPTIONS = [
